@@ -267,6 +267,35 @@ NOT_YET = {
 NOT_APPLICABLE = {}
 
 
+EXTRA = {
+    'C01': ' Also: linear chains of 4-6 operators, four-operator DAGs, star '
+           'graphs whose 3-4 consumers each ask for a different quantized form, '
+           'and the model returned by a second quantize() on the same object.',
+    'C03': ' Also linear chains of 4-6 operators and four-operator DAGs with '
+           'every NQ/static assignment.',
+    'C06': ' Also linear chains of 4-6 weight-bearing operators.',
+    'C08': ' Also four-operator DAG families and the same tensor exported twice.',
+    'C10': ' Also rules for the virtual INPUT operator, GELU (builtin code >= '
+           '127), a second rule under the same regex, and signature_defs listed '
+           'in another order than their subgraphs.',
+    'C11': ' A reduced 13-event alphabet is explored to depth 5; need_calibration '
+           'is part of the observed table.',
+    'C13': ' The whole lattice is swept a second time in reverse order (the '
+           'answer must not depend on earlier answers); accepted pairs also run '
+           'inside two-operator contexts.',
+    'C14': ' Plus cross-model histories (two checkpoints with identical tensor '
+           'names in one process) and repeated quantization of branching models '
+           'with per-consumer rules, both against fresh-process results.',
+    'C15': ' Also a sharer the quantizer does not know (MAXIMUM) and tied '
+           'constants carrying the same name in two subgraphs.',
+    'C16': ' Also byte-identical constant buffers and float models that already '
+           'store their constants outside the flatbuffer.',
+    'C17': ' Also dequantization of 32/64-bit codes.',
+    'C19': ' Also pairs of equal-structure subgraphs, recipes scoped by one '
+           'subgraph\'s name prefix, and constants with identical names.',
+}
+
+
 def main():
   props = [json.loads(l) for l in open(os.path.join(HERE, 'properties.jsonl'))]
   commits = subprocess.run(
@@ -286,7 +315,8 @@ def main():
           'evidence_file': f'/verif/evidence/{pid}.json',
           'replay_cmd_template': f'./check {pid} --replay {{path}}',
           'engine': eng,
-          'level_claimed': {'category': 'model_checking', 'text': text,
+          'level_claimed': {'category': 'model_checking',
+                            'text': text + EXTRA.get(pid, ''),
                             'design_ref': f'DESIGN.md section {ref}'},
           'level_note': note,
           'technique': tech,
